@@ -47,7 +47,7 @@ def make_project(rng, root, nfiles, shared=True):
 def run(run):
     h = C.Harness()
     rng = run.rng
-    quick = run.tier == "quick"
+    quick = run.depth == "quick"
     stats = collections.Counter()
     try:
         # ---- forced arrival orders
@@ -190,7 +190,7 @@ def run(run):
             finally:
                 shutil.rmtree(root, ignore_errors=True)
         # ---- thorough: the race detector
-        if not quick:
+        if run.tier == "thorough":
             env = dict(C.GOENV, GOFLAGS="-mod=mod")
             race = os.path.join(C.BUILD, "cpfh-race")
             rc, out = C.sh(["go", "build", "-race", "-tags", "verif", "-o", race, "."], cwd=C.HARNESS_DIR, env=env, timeout=900)
